@@ -99,6 +99,7 @@ def pure_shard(seed, n):
     return acc
 
 
+SWEEP = (6, 100)
 install(globals(), ID, 2500, 30000)
 _sim_run = run
 _sim_replay = replay
